@@ -2,3 +2,138 @@
 //! Harnesses that only need crate-visible items live below this module;
 //! harnesses for private items are attached by per-file hooks.
 #![allow(unused_imports, dead_code)]
+
+// ---------------------------------------------------------------------------------------------
+// C20-U2: tagged run-time values of the IR evaluator (src/lir/value.rs)
+// C20-U3: evaluator memory (src/lir/eval.rs): read-after-write, loud on out-of-bounds / misaligned
+// ---------------------------------------------------------------------------------------------
+mod c20 {
+    use crate::lir::eval::Memory;
+    use crate::lir::value::{IrType, IrValue};
+
+    fn same(x: &IrValue, y: &IrValue) -> bool {
+        use IrValue::*;
+        match (x, y) {
+            (Bool(l), Bool(r)) => l == r,
+            (U8(l), U8(r)) => l == r,
+            (U16(l), U16(r)) => l == r,
+            (U32(l), U32(r)) => l == r,
+            (U64(l), U64(r)) => l == r,
+            (I8(l), I8(r)) => l == r,
+            (I16(l), I16(r)) => l == r,
+            (I32(l), I32(r)) => l == r,
+            (I64(l), I64(r)) => l == r,
+            (F32(l), F32(r)) => l.to_bits() == r.to_bits(),
+            (F64(l), F64(r)) => l.to_bits() == r.to_bits(),
+            (Char(l), Char(r)) => l == r,
+            (Asn(l), Asn(r)) => l.into_u32() == r.into_u32(),
+            (Pointer(l), Pointer(r)) => l == r,
+            _ => false,
+        }
+    }
+
+    fn any_value() -> (IrValue, IrType) {
+        let k: u8 = kani::any();
+        kani::assume(k < 14);
+        match k {
+            0 => (IrValue::Bool(kani::any()), IrType::Bool),
+            1 => (IrValue::U8(kani::any()), IrType::U8),
+            2 => (IrValue::U16(kani::any()), IrType::U16),
+            3 => (IrValue::U32(kani::any()), IrType::U32),
+            4 => (IrValue::U64(kani::any()), IrType::U64),
+            5 => (IrValue::I8(kani::any()), IrType::I8),
+            6 => (IrValue::I16(kani::any()), IrType::I16),
+            7 => (IrValue::I32(kani::any()), IrType::I32),
+            8 => (IrValue::I64(kani::any()), IrType::I64),
+            9 => (IrValue::F32(f32::from_bits(kani::any())), IrType::F32),
+            10 => (IrValue::F64(f64::from_bits(kani::any())), IrType::F64),
+            11 => (IrValue::Char(kani::any()), IrType::Char),
+            12 => (IrValue::Asn(inetnum::asn::Asn::from_u32(kani::any())), IrType::Asn),
+            _ => (IrValue::Pointer(kani::any()), IrType::Pointer),
+        }
+    }
+
+    /// writing a value to memory and reading it back at its type gives the same value, for
+    /// every variant and payload; the byte image has exactly the size of the type
+    #[kani::proof]
+    #[kani::unwind(10)]
+    fn c20_u2_as_vec_from_slice_roundtrip() {
+        let (v, ty) = any_value();
+        let bytes = v.as_vec();
+        assert!(bytes.len() == ty.bytes(), "OBL:C20.value.byte_image_has_the_size_of_the_type");
+        let back = IrValue::from_slice(&ty, &bytes);
+        assert!(same(&back, &v), "OBL:C20.value.from_slice_inverts_as_vec");
+        kani::cover!(matches!(v, IrValue::Char(_)), "COV:C20.value.char_reached");
+    }
+
+    /// widening accessors: zero extension for unsigned, sign extension for signed, exact for floats
+    #[kani::proof]
+    fn c20_u2_widening_accessors() {
+        let a: u16 = kani::any();
+        let b: i16 = kani::any();
+        let c: u32 = kani::any();
+        assert!(IrValue::U16(a).as_u64() == a as u64 && IrValue::U8(a as u8).as_u64() == (a as u8) as u64, "OBL:C20.value.as_u64_zero_extends");
+        assert!(IrValue::I16(b).as_i64() == b as i64 && IrValue::I8(b as i8).as_i64() == (b as i8) as i64, "OBL:C20.value.as_i64_sign_extends");
+        assert!(IrValue::U32(c).as_u64() == c as u64 && IrValue::I32(c as i32).as_i64() == (c as i32) as i64, "OBL:C20.value.32_bit_accessors");
+        assert!(IrValue::U64(c as u64 | 1 << 63).as_u64() == (c as u64 | 1 << 63), "OBL:C20.value.u64_keeps_the_top_bit_unsigned");
+        let f: u32 = kani::any();
+        let x = f32::from_bits(f);
+        kani::assume(!x.is_nan());
+        assert!(IrValue::F32(x).as_f64() == x as f64, "OBL:C20.value.as_f64_is_exact_for_f32");
+        let t: bool = kani::any();
+        assert!(IrValue::Bool(t).as_bool() == t && IrValue::Bool(t).switch_on() == t as u32, "OBL:C20.value.bool_accessors");
+        kani::cover!(b < 0, "COV:C20.value.negative_reached");
+    }
+
+    /// loud: the unsigned accessor on a signed value (and vice versa) never completes
+    #[kani::proof]
+    fn loud_c20_u2_accessor_variant_mismatch() {
+        let x: i32 = kani::any();
+        let which: bool = kani::any();
+        if which {
+            let _ = IrValue::I32(x).as_u64();
+        } else {
+            let _ = IrValue::U32(x as u32).as_i64();
+        }
+        assert!(false, "OBL:C20.value.accessor_on_other_signedness_must_not_complete");
+    }
+
+    /// evaluator memory: a value written to a fresh allocation is read back; other bytes stay zero
+    #[kani::proof]
+    #[kani::unwind(18)]
+    fn c20_u3_memory_read_after_write() {
+        let mut mem = Memory::new();
+        let p = mem.allocate(8);
+        let q = mem.allocate(4);
+        let x: u32 = kani::any();
+        let y: u32 = kani::any();
+        mem.write(p, &x.to_ne_bytes());
+        mem.write(q, &y.to_ne_bytes());
+        assert!(mem.read_array::<4>(p) == x.to_ne_bytes(), "OBL:C20.memory.read_after_write");
+        assert!(mem.read_array::<4>(q) == y.to_ne_bytes(), "OBL:C20.memory.allocations_do_not_alias");
+        kani::cover!(x != y, "COV:C20.memory.distinct_values_reached");
+    }
+
+    /// loud: out-of-bounds and misaligned accesses never complete
+    #[kani::proof]
+    #[kani::unwind(18)]
+    fn loud_c20_u3_memory_out_of_bounds() {
+        let mut mem = Memory::new();
+        let p = mem.allocate(4);
+        let oob: bool = kani::any();
+        if oob {
+            let _ = mem.read_array::<8>(p);
+        } else {
+            mem.write(p, &[1u8, 2, 3, 4, 5, 6, 7, 8]);
+        }
+        assert!(false, "OBL:C20.memory.out_of_bounds_access_must_not_complete");
+    }
+
+    #[kani::proof]
+    #[kani::unwind(10)]
+    fn canary_c20_u2_roundtrip() {
+        let (v, ty) = any_value();
+        let back = IrValue::from_slice(&ty, &v.as_vec());
+        assert!(!same(&back, &v), "CANARY:C20.value.from_slice_inverts_as_vec");
+    }
+}
